@@ -11,6 +11,10 @@
   `c03.routes <x bits> <coeff> <factors> <coeff> <factors>`: `x [A]` to `B` on the copying route
   (`in_units`, EM branch included) and on the in-place route (`convert_to_units`);
   reply `ok <in_units> <convert_to_units>`.
+
+  `c03.base <system name> <x bits> <coeff> <factors>`: `x [A]` into the base units of a built-in
+  unit system on the three routes `in_base`, `convert_to_base`, `to(get_base_equivalent)`;
+  reply `ok <in_base> <convert_to_base> <to(get_base_equivalent)>`.
 -/
 import UnytModel.DriverBase
 import UnytModel.ConvHistory
@@ -84,6 +88,17 @@ def opsC03 : Handler := fun st fields =>
         some (st, s!"ok\t{outStr a}\t{outStr b}")
       | none => some (st, "err\tparse")
     | _, _ => some (st, "err\tparse")
+  | ["c03.base", sys, x, cA, fA] =>
+    match fb x, unitOf st.pre (st.luts[0]!) cA fA, findSystem Float sys with
+    | some x, some (uA, t1), some S =>
+      let T : EmTable Float := defaultEm Float
+      let a := (inBase st.pre t1 T S uA x).map (·.1)
+      let b := (convertToBase st.pre t1 T S (x, uA)).map (·.1)
+      let c := match getBaseEquivalent st.pre t1 T S uA with
+        | .ok v => (inUnitsEm st.pre t1 T uA x v).map (·.1)
+        | .error e => .error e
+      some (st, s!"ok\t{outStr a}\t{outStr b}\t{outStr c}")
+    | _, _, _ => some (st, "err\tparse")
   | _ => none
 
 end Unyt
